@@ -42,8 +42,20 @@ type ceremonyTrace struct {
 	Steps    []traceStep
 	Board    []storage.Message
 	RoundA   string // first round of a "tworounds" trace
+	Ops      []opRecord // node 0's operations with their genuine results
 	FinalDir string // node 0's state directory at the end
 	Elapsed  time.Duration
+}
+
+// opRecord is one operation of node 0: the state directory while it was pending, the operation file the
+// operator carried to the machine and the result file the machine produced (nil for approvals).
+type opRecord struct {
+	SnapDir    string
+	Type       string
+	OpID       string
+	OpFile     []byte
+	ResultFile []byte
+	BoardLen   int
 }
 
 var (
@@ -165,6 +177,27 @@ func getTrace(t *testing.T, kind string, n, thr int) (*ceremonyTrace, error) {
 					data, _ := json.Marshal(map[string]any{"ParticipantId": 1, "Error": "deliberate failure", "CreatedAt": time.Now()})
 					w.PostSigned(1, round, "event_dkg_deal_confirm_canceled_by_error", data, "")
 					errored = true
+					done++
+					continue
+				}
+				if i == 0 && !strings.Contains(string(op.Type), "sig_proposal_await") {
+					// record: snapshot while pending, operation file, genuine result file; then submit as usual
+					dir := filepath.Join(base, fmt.Sprintf("op-%03d", len(tr.Ops)))
+					if err := copyDir(w.Nodes[0].Dir, dir); err != nil {
+						return done, err
+					}
+					file, err := w.Nodes[0].OperationFile(op.ID)
+					if err != nil {
+						return done, err
+					}
+					res, err := w.Machines[0].Process(file)
+					if err != nil {
+						return done, fmt.Errorf("participant 0 machine: %w", err)
+					}
+					tr.Ops = append(tr.Ops, opRecord{SnapDir: dir, Type: string(op.Type), OpID: op.ID, OpFile: file, ResultFile: res, BoardLen: w.Board.Len()})
+					if err := w.Nodes[0].SubmitResult(res); err != nil {
+						return done, fmt.Errorf("participant 0 submit: %w", err)
+					}
 					done++
 					continue
 				}
